@@ -72,6 +72,7 @@ type Interp struct {
 	cur          *frame
 	choices      map[string]int
 	nowCnt       int
+	firstNow *Term
 	lastNow      *Term
 	hooks        map[string]interface{} // per-path engine state for intrinsics
 	injUFs       map[string]bool
@@ -778,6 +779,13 @@ func (in *Interp) visit(fr *frame, instr ssa.Instruction) cont {
 		p := in.get(fr, x.X).(Ptr)
 		if p == nil {
 			in.rtPanic("invalid memory address or nil pointer dereference (field " + fieldName(x.X.Type(), x.Field) + ")")
+		}
+		if op, isOp := (*p).(*Opaque); isOp && op.Kind == "kyber.verifier" && fieldName(x.X.Type(), x.Field) == "Aggregator" {
+			// vss.Verifier embeds *Aggregator: hand out the modelled aggregator of this verifier
+			var agg Value = &Opaque{Kind: "kyber.aggregator", Data: op.Data}
+			var cell Value = Ptr(&agg)
+			fr.locals[x] = Ptr(&cell)
+			break
 		}
 		s, ok := (*p).(Struct)
 		if !ok {
